@@ -150,6 +150,24 @@ CLAIMS['C11'] = dict(
          "present' and partition bounds are NOT decided.",
     technique="taint + truncation rule, switch coverage, dominating facts over LLVM IR; enumerators from the AST")
 
+CLAIMS['C05'] = dict(
+    text="Decides the code's reference accounting, on every path of every public shared/weak pointer function (whole-library inlined, "
+         "path-sensitive with a store/load model of the pointer slots): (M1) for every bookkeeping block touched, the net change of "
+         "its owner count equals installs minus clears of non-NULL pointers to it in owner objects, and of its reference count in "
+         "all objects, allocation contributing (1,1) -- any imbalance is, by counting, an early free or a leak in some history; (M2) "
+         "destroy is gated on the hard decrement's own result == 1, the bookkeeping free on the soft decrement's; (M3) unique "
+         "pointer reset/alloc/release/swap ordering; (M4) malloc/free only in the four lifetime functions. History-level claims that "
+         "also need correct client usage, and the values of get/unique, are NOT decided.",
+    technique="path-sensitive typestate with store/load model (effect balance per path) + dominating facts over inlined LLVM IR")
+CLAIMS['C06'] = dict(
+    text="STRUCTURE ONLY -- no interleaving is explored. Decides preconditions without which no schedule argument can hold: (A1) the "
+         "three counters are _Atomic and every access is an atomic instruction (unpublished initialisation excepted); (A2) the "
+         "decrements that gate destruction are RMWs with ordering >= acq_rel whose own result is tested; (A3) the spin flag is "
+         "released on every path and nothing is called while it is held; (A4) every RMW on the owner count in the speculative-"
+         "increment function lies inside the flag-held region; (A5) after a function's reference decrement the block is only "
+         "freed, never accessed. Linearizability, progress and race freedom over schedules are NOT decided.",
+    technique="atomicity/ordering rules over LLVM IR + AST qualifiers + typestate for flag pairing and use-after-release")
+
 NA = {
     'C02': "inductive colour/black-height invariant over an unbounded pointer structure; needs shape/separation reasoning that no static analyser available here provides (DESIGN.md 4/C02)",
     'C07': "heap order and completeness are inductive invariants tying pointer shape to size arithmetic; not expressible as dataflow/typestate/effects (DESIGN.md 4/C07)",
